@@ -1252,10 +1252,10 @@ impl OverlayFs {
                 delete_whiteout = true;
             }
 
-            // Set opaque if child dir has lower layers.
-            if !n.upper_layer_only() {
-                set_opaque = true;
-            }
+            // The new directory replaces a whiteout, so it must be opaque: the whiteout was
+            // hiding the entries of the lower layers, and a whiteout node never keeps lower
+            // real inodes, so `upper_layer_only()` can't tell whether any exist.
+            set_opaque = true;
         }
 
         // Copy parent node up if necessary.
